@@ -14,6 +14,8 @@ import Stef.Driver.Receiver
 import Stef.Driver.Pipeline
 import Stef.Driver.Alloc
 import Stef.Driver.Schema
+import Stef.Driver.Sizes
+import Stef.Driver.Otlp
 
 open Stef.Driver
 
@@ -29,8 +31,12 @@ def mkHandlers : IO (List (List String × Handler)) := do
   let pipe ← mkHandler ({} : Pipeline.St) Pipeline.step
   let alloc ← mkHandler ({} : Stef.Alloc.Checker) AllocD.step
   let schema ← mkHandler ({} : Schema.St) Schema.step
+  let sizes ← mkHandler () SizesD.step
+  let otlp ← mkHandler ({} : Otlp.St) Otlp.step
   pure [
     (["idl", "ws"], schema),
+    (["rs"], sizes),
+    (["otlp"], otlp),
     (["al"], alloc),
     (["rv", "ls"], recv),
     (["pl"], pipe),
